@@ -358,7 +358,10 @@ func c10UsedAssertions(c *run.Ctx) {
 	}
 	keys := world.GetKeys()
 	eps := []string{"token", "revoke", "par", "device", "introspect"}
-	lifetimes := [][]time.Duration{{time.Minute, time.Hour, 30 * time.Second}, {time.Hour, time.Minute, 2 * time.Hour}, {5 * time.Minute, 5 * time.Minute, 5 * time.Minute}}
+	lifetimes := [][]time.Duration{{time.Minute, time.Hour, 30 * time.Second}, {time.Hour, time.Minute, 2 * time.Hour}, {5 * time.Minute, 5 * time.Minute, 5 * time.Minute},
+		{72 * time.Hour, 30 * time.Minute, 96 * time.Hour}}
+	// with the last set a day and an hour pass between use and replay: the long-lived assertions are still unexpired
+	waits := []time.Duration{0, 0, 0, 25 * time.Hour}
 	for li, lt := range lifetimes {
 		for first := range eps {
 			w := world.New(world.Opts{JWTAccess: (li+first)%2 == 1})
@@ -400,6 +403,11 @@ func c10UsedAssertions(c *run.Ctx) {
 				} else {
 					c.Count("c10_fresh_assertion_refused:"+ep+":"+out.ErrName, 1)
 				}
+			}
+			if waits[li] > 0 {
+				world.Sleep(waits[li])
+				hist = append(hist, fmt.Sprintf("%s pass", waits[li]))
+				victim = w.Token(url.Values{"grant_type": {"client_credentials"}, "scope": {"fosite"}}, world.Auth{Mode: "none", Assertion: mk(time.Hour)}).S("access_token")
 			}
 			for ui, as := range used {
 				for _, ep := range eps {
